@@ -104,17 +104,29 @@ def strip_comments(src):
     return src
 
 
-def forbidden_tokens():
-    hits = []
-    for root, _, files in os.walk(LEAN):
-        if '.lake' in root:
+def lean_closure(targets, pid=None):
+    """Lean source files (relative to lean/) reachable through `import NibabelModel.* / Driver.*`
+    from the given module targets (plus the property's driver)."""
+    todo = list(targets) + (['Driver.' + pid] if pid else [])
+    seen = []
+    while todo:
+        m = todo.pop()
+        rel = m.replace('.', '/') + '.lean'
+        path = os.path.join(LEAN, rel)
+        if rel in seen or not os.path.exists(path):
             continue
-        for fn in files:
-            if fn.endswith('.lean'):
-                p = os.path.join(root, fn)
-                for i, l in enumerate(strip_comments(open(p).read()).splitlines(), 1):
-                    if FORBIDDEN.search(l):
-                        hits.append(f'{os.path.relpath(p, LEAN)}: {l.strip()[:80]}')
+        seen.append(rel)
+        for mm in re.findall(r'^\s*import\s+((?:NibabelModel|Driver)[\w.]*)', strip_comments(open(path).read()), flags=re.M):
+            todo.append(mm)
+    return sorted(seen)
+
+
+def forbidden_tokens(targets, pid=None):
+    hits = []
+    for rel in lean_closure(targets, pid):
+        for l in strip_comments(open(os.path.join(LEAN, rel)).read()).splitlines():
+            if FORBIDDEN.search(l):
+                hits.append(f'{rel}: {l.strip()[:80]}')
     return hits
 
 
@@ -269,7 +281,7 @@ def run_property(modname, tier, seed, replay=None):
             extra = set(ax) - ALLOWED_AXIOMS
             if extra:
                 broken.append(('proof-broken', t, 'uses axioms ' + ','.join(sorted(extra))))
-    tokens = forbidden_tokens()
+    tokens = forbidden_tokens(mod.LEAN_TARGETS, pid)
     for h in tokens:
         broken.append(('proof-broken', 'forbidden-token', h))
     obligations = len(mod.THEOREMS) + len(gen_obl)
